@@ -47,9 +47,11 @@ func c08Fault(q string) *a.Fault {
 	return nil
 }
 
-func c08Harness(world string, ops []c08Op, cfg a.Config) explore.Harness {
+func c08Harness(world string, ops []c08Op, cfg a.Config, fresh bool) explore.Harness {
 	h := newGWHarness(world, cfg)
-	h.fed.Fakes.FaultByQuery = c08Fault
+	h.setup = func(h *gwHarness) { h.fed.Fakes.FaultByQuery = c08Fault }
+	h.setup(h)
+	h.fresh = fresh
 	// expected: what each operation receives when sent alone (pass-through mode)
 	want := make([]string, len(ops))
 	for i, o := range ops {
@@ -68,6 +70,7 @@ func c08Harness(world string, ops []c08Op, cfg a.Config) explore.Harness {
 		batch = []byte("[]")
 	}
 	return func() (func(), func(*vrt.Sched) (string, string)) {
+		h.begin()
 		var status int
 		var body []byte
 		done := false
@@ -170,7 +173,8 @@ func init() {
 						Name:  fmt.Sprintf("batch [%s] PB<=%d %s %s", strings.Join(names, ","), bound, gran, cfg.String()),
 						Atoms: append([]string{fmt.Sprintf("len%d", len(bt))}, names...),
 						Opt:   explore.Options{Bound: bound, Horizon: 200000, Cache: true, GroupDepth: group},
-						H:     c08Harness("W0", bt, cfg),
+						H:     c08Harness("W0", bt, cfg, false),
+						Fresh: func() explore.Harness { return c08Harness("W0", bt, cfg, true) },
 					})
 				}
 			}
